@@ -12,6 +12,7 @@ mod c12;
 mod c13;
 mod c16;
 mod shape_corr;
+mod strings_corr;
 mod corpus;
 mod gen;
 mod sweep;
@@ -76,6 +77,7 @@ fn main() {
         "c13" => c13::run(&tier, seed, &out),
         "c13api" => c13::api_main(&args[2..]),
         "c18" => c18::run(&tier, seed, &out),
+        "strings" => strings_corr::run(&tier, seed, &out),
         "boundary" => boundary::main(&args[2..]),
         "probe" => probe(&out),
         // rfverif tokens <file> [keep]  : the encoded token list of a file (for the C01/C03 validators)
